@@ -227,7 +227,7 @@ def gen_anchor(g, f):
 
 
 def gen_fault(g, cfg):
-    kinds = ["request-abort", "abort-after-complete", "soft-fail-abort", "conn-fatal", "params-raise", "runner-raise", "store-raise", "rc-store-raise", "prep-fail", "worker-kill", "interrupt"]
+    kinds = ["request-abort", "abort-after-complete", "soft-fail-abort", "conn-fatal", "params-raise", "runner-raise", "store-raise", "rc-store-raise", "prep-fail", "prep-processor-raise", "worker-kill", "interrupt"]
     kind = g.pick(kinds)
     tasks = [t for _, _, t in leaf_tasks(cfg["schedule"]) if t["op"] in ("sim-op", "raw-request") and "sim" in t]
     f = {"kind": kind}
@@ -260,6 +260,8 @@ def gen_fault(g, cfg):
         f["at_add"] = g.pick([0, 1, 5, 20, 60])
     elif kind == "rc-store-raise":
         f["at_call"] = g.pick([0, 0, 1, 2, 3, 5])  # n-th batch of samples that race control adds to its store
+    elif kind == "prep-processor-raise":
+        pass
     elif kind == "prep-fail":
         bulks = [t for _, _, t in leaf_tasks(cfg["schedule"]) if t["op"] == "bulk"]
         if not bulks:
@@ -433,6 +435,21 @@ class RaceHarness(Harness):
         c = json.loads(json.dumps(base))
         c["fault"] = {"kind": "prep-fail", "task": "t3"}
         yield c
+        for rep in range(3):
+            c = json.loads(json.dumps(base))
+            c["fault"] = {"kind": "prep-processor-raise", "rep": rep}
+            yield c
+        # a failure at race control followed at once by the end of the race: the last step is one short request, messages stall
+        short = json.loads(json.dumps(base))
+        short["schedule"] = [
+            {"task": {"name": "t0", "op": "sim-op", "clients": 2, "iterations": 3, "tags": [], "sim": {"task": "t0", "unit": "ops"}}},
+            {"task": {"name": "t1", "op": "sim-op", "clients": 1, "iterations": 1, "tags": [], "sim": {"task": "t1", "unit": "ops"}}},
+        ]
+        short["knobs"] = dict(short["knobs"], stall_p=0.3, worker_wakeup=0.5, driver_wakeup=0.3)
+        for rep in range(12):
+            c = json.loads(json.dumps(short))
+            c["fault"] = {"kind": "rc-store-raise", "at_call": 1, "rep": rep}
+            yield c
         for at in (0.0, 1.05, 1.5, 3.0, 5.0, 8.0):
             for which in (0, 1, 2):
                 c = json.loads(json.dumps(base))
@@ -641,6 +658,9 @@ class RaceHarness(Harness):
         SimParamSource.raised = []
         SimRunner.raised = []
         SimRunner.soft_failed = []
+        from sim import loadsim as _loadsim
+
+        del _loadsim.PROCESSOR_RAISED[:]
         sim = RaceSim(ch, run_cfg, self.process_home())
         rc_docs = []
         rc_events = []  # (vtime, msg class) delivered to race control
@@ -788,6 +808,10 @@ class RaceHarness(Harness):
                     return orig_bulk_add(self_, docs)
 
                 metrics.MetricsStore.bulk_add = bulk_add
+            elif k == "prep-processor-raise":
+                # the plug-in registers a track processor whose on_prepare_track raises (on every load driver host)
+                with open(os.path.join(out.track_dir, "processor-raises"), "w") as f:
+                    f.write("1")
             elif k == "prep-fail":
                 p = os.path.join(out.track_dir, f"docs-{fault['task']}.json")
                 if os.path.exists(p):
@@ -825,6 +849,8 @@ class RaceHarness(Harness):
                 fired["parameter_source_raises"] = len(SimParamSource.raised)
             if SimRunner.raised:
                 fired["runner_raises"] = len(SimRunner.raised)
+            if _loadsim.PROCESSOR_RAISED:
+                fired["track_processor_raises"] = len(_loadsim.PROCESSOR_RAISED)
             if SimRunner.soft_failed and cfg.get("on_error") == "abort":
                 fired["runner_reports_failure_abort"] = len(SimRunner.soft_failed)
 
